@@ -74,6 +74,13 @@ REJECTED = ["x = 1 < 2 < 3", "x = - - 1", "x = not not true" if False else "x = 
             "x = 7 % 0", "x = 1 and true", "x = 'a' < 1", "x = {'a': 1}['b']", "if 1\nendif", "x = true + true"]
 
 
+# no implicit conversion in the logical operators, in any operand position that is evaluated, whatever the result is used for
+NONBOOL = ['1', "'abc'", '[]', "{'k': 1}", '[true]']
+for _v in NONBOOL:
+    REJECTED += [f'x = false or {_v}', f'x = true and {_v}', f'x = {_v} or true', f'x = {_v} and true', f'x = not {_v}', f'x = {_v} ? 1 : 2',
+                 f'y = [false or {_v}]', f'message(true and {_v})', f'x = false or (false or {_v})', f'if {_v}\nendif']
+
+
 def _prog_chunk(chunk):
     fails, nt = [], 0
     for kind, payload in chunk:
